@@ -13,8 +13,16 @@ use crate::rpkigen::{Builder, CaSpec, Gen, ObjSpec, PointFault, Stale, TalSpec, 
 use crate::util;
 
 #[derive(Clone, Copy, Debug, Eq, PartialEq)]
-pub enum Rej { None, NoManifest, BadManifest, StaleReject, CrlMissing, StoredStale }
-const REJS: [Rej; 6] = [Rej::None, Rej::NoManifest, Rej::BadManifest, Rej::StaleReject, Rej::CrlMissing, Rej::StoredStale];
+pub enum Rej { None, NoManifest, BadManifest, StaleReject, CrlMissing, StoredStale,
+    /// the stored copy of the point, used because nothing changed
+    /// upstream, lost its last bytes since it was written
+    StoredDamaged }
+const REJS: [Rej; 7] = [Rej::None, Rej::NoManifest, Rej::BadManifest, Rej::StaleReject, Rej::CrlMissing, Rej::StoredStale, Rej::StoredDamaged];
+
+/// The AS resources of the rejected CA.
+#[derive(Clone, Copy, Debug, Eq, PartialEq)]
+pub enum AsRes { Range, Absent, Whole }
+const ASRES: [AsRes; 3] = [AsRes::Range, AsRes::Absent, AsRes::Whole];
 
 #[derive(Clone, Copy, Debug, Eq, PartialEq)]
 pub enum Res { V4Only, V4AndV6, WholeV4, TwoBlocks,
@@ -25,7 +33,7 @@ const RESS: [Res; 7] = [Res::V4Only, Res::V4AndV6, Res::WholeV4, Res::TwoBlocks,
 const POLICIES: [FilterPolicy; 3] = [FilterPolicy::Reject, FilterPolicy::Warn, FilterPolicy::Accept];
 
 #[derive(Clone, Debug)]
-pub struct CaseSpec { pub rej: Rej, pub res: Res, pub policy: FilterPolicy, pub nested_child: bool }
+pub struct CaseSpec { pub rej: Rej, pub res: Res, pub policy: FilterPolicy, pub nested_child: bool, pub asres: AsRes }
 
 /// The unrelated CA's VRPs: (name, addr, len, v6?, relation to 10.0.0.0/16)
 fn other_vrps() -> Vec<(&'static str, &'static str, u8)> {
@@ -75,7 +83,7 @@ fn tree(c: &CaseSpec) -> TreeSpec {
     let mut ta = CaSpec::new("ta0", 0, "ta0.example", "repo");
     ta.v4 = vec![(Ipv4Addr::new(0, 0, 0, 0), 0)];
     ta.v6 = vec![("::".parse().unwrap(), 0)];
-    ta.asns = vec![(1, 65000)];
+    ta.asns = if c.asres == AsRes::Whole { vec![(0, u32::MAX)] } else { vec![(1, 65000)] };
     ta.objs = vec![ObjSpec::roa("own", 64496, "192.0.2.0", 24, 24)];
     let mut car = CaSpec::new("car", 1, "car.example", "repo");
     match c.res {
@@ -99,10 +107,14 @@ fn tree(c: &CaseSpec) -> TreeSpec {
         }
         Res::TwoBlocks => car.v4 = vec![(Ipv4Addr::new(10, 0, 0, 0), 16), (Ipv4Addr::new(172, 16, 0, 0), 12)],
     }
-    car.asns = vec![(64500, 64510)];
+    car.asns = match c.asres {
+        AsRes::Range => vec![(64500, 64510)],
+        AsRes::Absent => vec![],
+        AsRes::Whole => vec![(0, u32::MAX)],
+    };
     car.objs = vec![ObjSpec::roa("inside", 64500, "10.0.2.0", 24, 24)];
     car.point_fault = match c.rej {
-        Rej::None => None,
+        Rej::None | Rej::StoredDamaged => None,
         Rej::NoManifest => Some(PointFault::NoManifest),
         Rej::BadManifest => Some(PointFault::MftBadSig),
         Rej::StaleReject | Rej::StoredStale => Some(PointFault::MftStale),
@@ -113,7 +125,7 @@ fn tree(c: &CaseSpec) -> TreeSpec {
         // not matter. Give it a block nothing else touches.
         let mut ch = CaSpec::new("carchild", 2, "car.example", "repo");
         ch.v4 = vec![(Ipv4Addr::new(10, 0, 128, 0), 17)];
-        ch.asns = vec![(64505, 64505)];
+        ch.asns = if c.asres == AsRes::Absent { vec![] } else { vec![(64505, 64505)] };
         ch.objs = vec![ObjSpec::roa("deep", 64505, "10.0.128.0", 24, 24)];
         car.children.push(ch);
     }
@@ -133,9 +145,9 @@ fn tree(c: &CaseSpec) -> TreeSpec {
 
 pub fn cases() -> Vec<CaseSpec> {
     let mut res = Vec::new();
-    for rej in REJS { for r in RESS { for policy in POLICIES { for nested_child in [false, true] {
-        res.push(CaseSpec { rej, res: r, policy, nested_child });
-    }}}}
+    for rej in REJS { for r in RESS { for policy in POLICIES { for nested_child in [false, true] { for asres in ASRES {
+        res.push(CaseSpec { rej, res: r, policy, nested_child, asres });
+    }}}}}
     res
 }
 
@@ -157,6 +169,25 @@ pub fn run_case(gen: &Gen, dir: std::path::PathBuf, c: &CaseSpec) -> Result<Stri
         etree::run(&config, false, &LocalExceptions::empty())
             .map_err(|e| ("run-failed".to_string(), e))?;
         config.stale = FilterPolicy::Reject;
+    }
+    if c.rej == Rej::StoredDamaged {
+        // A first run stores the point; its file then loses its last 16
+        // bytes. Upstream is unchanged, so the run under test goes to the
+        // stored copy.
+        let first = etree::run(&config, false, &LocalExceptions::empty())
+            .map_err(|e| ("run-failed".to_string(), e))?;
+        if !first.data.origins.contains(&origin_of("10.0.2.0", 24, 64500)) {
+            return Err(("harness".into(), format!("{c:?}: the first run does not serve the CA's VRP")))
+        }
+        let file = config.cache_dir.join("stored/rsync/rsync/car.example/repo/car/car.mft");
+        if !file.is_file() {
+            let mut all = Vec::new();
+            util::walk(&config.cache_dir.join("stored"), &mut all);
+            return Err(("harness".into(), format!("{c:?}: no stored point file for the CA; there are {all:?}")))
+        }
+        let mine = [file];
+        let data = std::fs::read(&mine[0]).map_err(|e| ("harness".to_string(), e.to_string()))?;
+        std::fs::write(&mine[0], &data[..data.len() - 16]).map_err(|e| ("harness".to_string(), e.to_string()))?;
     }
     let out = etree::run(&config, false, &LocalExceptions::empty())
         .map_err(|e| ("run-failed".to_string(), e))?;
@@ -187,8 +218,24 @@ pub fn run_case(gen: &Gen, dir: std::path::PathBuf, c: &CaseSpec) -> Result<Stri
     Ok(format!("filtered={filtered}"))
 }
 
+/// Log books only record while a logger is installed, as it always is in
+/// the real program; this one accepts everything and keeps nothing.
+struct Sink;
+impl log::Log for Sink {
+    fn enabled(&self, _: &log::Metadata) -> bool { true }
+    fn log(&self, _: &log::Record) { }
+    fn flush(&self) { }
+}
+static SINK: Sink = Sink;
+
+fn install_logger() {
+    let _ = log::set_logger(&SINK);
+    log::set_max_level(log::LevelFilter::Trace);
+}
+
 pub fn run(ctx: &Ctx) -> Report {
     util::quiet_panics();
+    install_logger();
     let gen = Gen::load();
     let mut rep = Report::new("exploration");
     let cases = cases();
@@ -197,8 +244,10 @@ pub fn run(ctx: &Ctx) -> Report {
         0.0.0.0/0 + 2001:db8::/32; 10.0.0.0/16 + ::/0; 0.0.0.0/0 + ::/0} \
         whose publication point is {fine, without manifest, with a bad \
         manifest, stale under reject, without CRL, \
-        stored earlier (under stale=accept) and rejected from the store}, with and without a \
-        child CA below it; an unrelated CA under the second TAL with VRPs \
+        stored earlier (under stale=accept) and rejected from the store, \
+        stored earlier and the stored file cut short since}, holding {an \
+        AS range, no AS numbers, all AS numbers}, with and without a \
+        child CA below it; a logger is installed so that log books record; an unrelated CA under the second TAL with VRPs \
         covering R, equal to R, nested, last host address of R, first \
         address after R, before R, in the second block, IPv6 inside / \
         covering / outside; x unsafe-vrps {reject, warn, accept}; oracle: \
@@ -218,7 +267,7 @@ pub fn run(ctx: &Ctx) -> Report {
             Ok(o) => rep.outcome(o),
             Err((class, msg)) => {
                 rep.outcome(format!("VIOLATION:{class}"));
-                rep.violation(format!("unsafe:{class}:{:?}:{:?}:{}", c.rej, c.res, c.policy), msg, json!({"index": i}));
+                rep.violation(format!("unsafe:{class}:{:?}:{:?}:{:?}:{}", c.rej, c.res, c.asres, c.policy), msg, json!({"index": i}));
             }
         }
     }
@@ -228,6 +277,7 @@ pub fn run(ctx: &Ctx) -> Report {
 }
 
 pub fn replay(ctx: &Ctx, v: &Value) -> Report {
+    install_logger();
     let gen = Gen::load();
     let mut rep = Report::new("exploration");
     let cases = cases();
